@@ -8,6 +8,7 @@ import (
 	"strings"
 
 	"github.com/bronlabs/bron-crypto/pkg/base/curves/k256"
+	"github.com/bronlabs/bron-crypto/pkg/base/curves/p256"
 
 	dcg "verif/harness/internal/drive/cggmp21"
 	ddkls "verif/harness/internal/drive/dkls23"
@@ -17,10 +18,10 @@ import (
 
 var cggmpPolicies = []string{"T:2:1,2,3"}
 
-func cggmpAvailable() []string {
+func cggmpAvailable(curve string) []string {
 	var out []string
 	for _, p := range cggmpPolicies {
-		if _, err := os.Stat(keys.CggmpPath("k256", p)); err == nil {
+		if _, err := os.Stat(keys.CggmpPath(curve, p)); err == nil {
 			out = append(out, p)
 		}
 	}
@@ -29,38 +30,47 @@ func cggmpAvailable() []string {
 
 func genCggmpKeys() {
 	for i, p := range cggmpPolicies {
-		if _, err := os.Stat(keys.CggmpPath("k256", p)); err == nil {
-			continue
+		if _, err := os.Stat(keys.CggmpPath("k256", p)); err != nil {
+			fmt.Fprintln(os.Stderr, "generating CGGMP21 key material (k256) for", p)
+			if err := keys.GenerateCggmp(k256.NewCurve(), "k256", p, vh.NewRng(1, "C01", "cggmpkeys", i)); err != nil {
+				fmt.Fprintln(os.Stderr, "  failed:", err)
+			}
 		}
-		fmt.Fprintln(os.Stderr, "generating CGGMP21 key material for", p)
-		if err := keys.GenerateCggmp(k256.NewCurve(), "k256", p, vh.NewRng(1, "C01", "cggmpkeys", i)); err != nil {
-			fmt.Fprintln(os.Stderr, "  failed:", err)
+		if _, err := os.Stat(keys.CggmpPath("p256", p)); err != nil {
+			fmt.Fprintln(os.Stderr, "generating CGGMP21 key material (p256) for", p)
+			if err := keys.GenerateCggmp(p256.NewCurve(), "p256", p, vh.NewRng(1, "C01", "cggmpkeys-p256", i)); err != nil {
+				fmt.Fprintln(os.Stderr, "  failed:", err)
+			}
 		}
 	}
 }
 
 func cggmpCount(tier string) int {
-	if len(cggmpAvailable()) == 0 {
+	if len(cggmpAvailable("k256"))+len(cggmpAvailable("p256")) == 0 {
 		return 0
 	}
 	if tier == "thorough" {
-		return 8
+		return 10
 	}
-	return 1
+	return 4
 }
 
 func cggmpCases(seed int64, count int) []kase {
-	avail := cggmpAvailable()
 	var out []kase
-	for i := 0; i < count && len(avail) > 0; i++ {
+	for i := 0; i < count; i++ {
 		rng := vh.NewRng(seed, "C01", "gen/cggmp", i)
+		combo := ecdsaCombos[i%len(ecdsaCombos)] // curve x hash rotation, see eval_l17.go
+		avail := cggmpAvailable(combo[0])
+		if len(avail) == 0 {
+			continue
+		}
 		ptxt := avail[i%len(avail)]
 		p, _ := keys.ParsePolicy(ptxt)
-		q := pickQuorum(p, rng, i%3 != 2, 3, 0)
+		q := pickQuorum(p, rng, i%5 != 4, 3, 0)
 		if q == nil {
 			continue
 		}
-		out = append(out, kase{Proto: "cggmp21", Variant: "k256,sha256", Policy: ptxt, Quorum: q, Msg: msgSpec(i, rng, true), Session: "seeded", Seed: seed*1000 + int64(i)})
+		out = append(out, kase{Proto: "cggmp21", Variant: combo[0] + "," + combo[1], Policy: ptxt, Quorum: q, Msg: msgSpec(i, rng, true), Session: "seeded", Seed: seed*1000 + int64(i)})
 	}
 	return out
 }
@@ -97,7 +107,7 @@ func evalCggmp(idx int, k kase, o *outcome) {
 		if res.LibOK != "ok" {
 			fail("library-verifier-rejects", res.LibOK)
 		}
-		if !secpECDSAVerify(pt{x: res.PKX, y: res.PKY}, digest, res.Sig.R, res.Sig.S) {
+		if !ecdsaIndependent(v[0], res.PKX, res.PKY, digest, res.Sig.R, res.Sig.S) {
 			fail("independent-verifier-rejects", res.Trace.Outputs[0])
 		}
 	}
